@@ -5,6 +5,8 @@ import numpy as np
 
 from vmon import gen, instr
 
+from vmon.scale import S
+
 ID = 'C18'
 RULE = ('cases = complex source tensors with 1..4 axes (sizes 1..6, F/T up to 40), every valid (source_axis, sensor_axis) pair, keepdims on/off, '
         'tied powers, silent points and all-zero inputs: each mask function against its definition evaluated by explicit loops in the canonical '
@@ -21,7 +23,7 @@ FUNS = ['ibm', 'wiener', 'ratio', 'amplitude', 'complex', 'psm', 'quantile', 'lo
 def plan(tier, seed):
     rng = np.random.default_rng([seed, 118])
     pick = lambda xs: xs[int(rng.integers(len(xs)))]
-    n = 110 if tier == 'quick' else 1100
+    n = S(tier, 110, 1100)
     cases, i = [], 0
     for fun in FUNS:
         for r in range(n):
